@@ -277,6 +277,50 @@ func runHist(ci interface{}, s *vkit.Stats) error {
 			if len(t.slots) >= 2 {
 				s.Class("variable-with->=2-mocked-slots")
 			}
+		case "badstub":
+			// a stub goom refuses (the As signature has one parameter too many): the refusal leaves the method as it was, and a
+			// correct stub of the same method through the same builder afterwards works
+			if t.copied || (t.mocked && t.orphan) {
+				continue
+			}
+			if t.mocked && t.builder != bi {
+				bi = t.builder
+			}
+			if builders[bi] == nil {
+				builders[bi] = mocker.Create()
+				live[bi] = true
+			}
+			asT := reflect.TypeOf(m.As)
+			ins := []reflect.Type{asT.In(0), reflect.TypeOf(0)}
+			for i := 1; i < asT.NumIn(); i++ {
+				ins = append(ins, asT.In(i))
+			}
+			var outs []reflect.Type
+			for i := 0; i < asT.NumOut(); i++ {
+				outs = append(outs, asT.Out(i))
+			}
+			bad := reflect.MakeFunc(reflect.FuncOf(ins, outs, false), func([]reflect.Value) []reflect.Value {
+				r := make([]reflect.Value, len(outs))
+				for i := range r {
+					r[i] = reflect.Zero(outs[i])
+				}
+				return r
+			}).Interface()
+			res := mresults(m, op.I[3])
+			vals := make([]interface{}, len(res))
+			for i := range res {
+				vals[i] = res[i].Interface()
+			}
+			wasNil := ii.IsNil(v)
+			if pv := guard(func() { builders[bi].Interface(ii.Var(v)).Method(m.Name).As(bad).Return(vals...) }); pv == nil {
+				s.Exclude("stub-with-an-extra-parameter-was-accepted(property C13 judges that)")
+				return nil
+			}
+			if !t.mocked && wasNil != ii.IsNil(v) {
+				return fmt.Errorf("step %d: a refused stub of %s.%s changed variable %d", step, ii.Name, m.Name, v)
+			}
+			s.Class("refused-stub-in-the-history")
+			fp = append(fp, fmt.Sprintf("bad%d:%d", v, m.Tag%100))
 		case "copy":
 			// the mocked value is handed to another variable of the interface type (an object keeping the dependency it was
 			// built with): it stays callable for as long as that variable holds it, whatever happens to the first variable
@@ -395,7 +439,7 @@ func runHist(ci interface{}, s *vkit.Stats) error {
 	return nil
 }
 
-var opGen = vkit.OpGen([]string{"apply", "ret", "call", "callall", "reset", "dropgc", "gc", "copy"}, []int{5, 4, 8, 2, 2, 1, 1, 2}, 6)
+var opGen = vkit.OpGen([]string{"apply", "ret", "call", "callall", "reset", "dropgc", "gc", "copy", "badstub"}, []int{5, 4, 8, 2, 2, 1, 1, 2, 2}, 6)
 
 func TestVerifC07(t *testing.T) {
 	if f, err := os.OpenFile(os.DevNull, os.O_WRONLY, 0); err == nil && os.Getenv("VERIF_VERBOSE") == "" {
